@@ -8,7 +8,9 @@ RULE = (
     "compares the returned per-step log-prob of the action actually taken (1e-4); forced multi-start first moves and "
     "post-finish padding steps must contribute 0; actions must be unmasked; returned entropy == entropy of the recomputed "
     "distributions; summed ll == sum of steps; then the returned actions are fed back (evaluate) on the same batch in the "
-    "same mode: per-step log-probs, reward and entropy must be reproduced. One evaluation per rollout row; non-trivial = "
+    "same mode: per-step log-probs, reward and entropy must be reproduced; multi-start / multi-sample rollouts are evaluated "
+    "on the replicated instances (steps after the forced move); the step-wise PPO policy (L2DPolicy4PPO) is driven through "
+    "act() -> evaluate() on FJSP/JSSP: same log-prob (ratio 1), equal to the clipped masked reference, correct entropy. One evaluation per rollout row; non-trivial = "
     "distinct (case, action matrix)"
 )
 ASSUMPTIONS = [
@@ -17,7 +19,7 @@ ASSUMPTIONS = [
     "MDAM and PointerNetwork do not go through DecodingStrategy.step per decoder call in a way the tap can align; MDAM's normalisation is covered via C14 (fixed defect), PointerNetwork via the round trip only when the tap aligns",
     "beam search is C13's subject",
 ]
-REQUIRED_COUNTERS = ["c11_forwards", "c11_step_rows", "c11_forced_steps", "c11_padding_step_rows", "c11_entropy_checked", "c11_sum_checked", "c11_roundtrips"]
+REQUIRED_COUNTERS = ["c11_forwards", "c11_step_rows", "c11_forced_steps", "c11_padding_step_rows", "c11_entropy_checked", "c11_sum_checked", "c11_roundtrips", "c11_roundtrips_replicated", "c11_stepwise_rows"]
 MIN_NONTRIVIAL = {"quick": 900, "thorough": 8000}
 WORKERS = {"quick": 14, "thorough": 16}
 BUDGET_S = {"quick": 500, "thorough": 3000}
@@ -38,7 +40,7 @@ DECODES = [
     dict(decode_type="multistart_greedy", num_starts=3),
     dict(decode_type="multistart_sampling", num_starts=2, temperature=1.3),
 ]
-NO_MULTISTART = {"mtsp", "svrp", "smtwtp", "fjsp", "jssp", "mdcpdp", "atsp"}
+NO_MULTISTART = {"mtsp", "svrp", "smtwtp", "fjsp", "jssp", "mdcpdp", "atsp", "op"}  # op: forced starts may be infeasible (recorded C12 finding)
 
 
 def cases(tier, seed):
@@ -57,13 +59,18 @@ def cases(tier, seed):
                 for B in ((1, 4) if q else (1, 2, 5, 8)):
                     for r in range(2 if q else 4):
                         out.append(dict(policy=kind, env=env, n=n, B=B, s=rnd.randrange(10**6), wseed=r, extra=extra, decode=dk, train_mode=False))
+    for env, extra in (("fjsp", dict(jobs=3, mas=2, min_ops=1, max_ops=3, mask_no_ops=True)), ("jssp", dict(jobs=3, mas=3, one2one=True, mask_no_ops=True))):
+        for B in ((1, 4) if q else (1, 2, 4, 8)):
+            for clip in (10, 0, 3):
+                for r in range(2 if q else 6):
+                    out.append(dict(kind="stepwise", env=env, extra=extra, B=B, clip=clip, s=rnd.randrange(10**6), wseed=r))
     return out
 
 
 def run_case(ctx, case):
     from vlib import c11impl
 
-    c11impl.case(ctx, case)
+    (c11impl.stepwise_case if case.get("kind") == "stepwise" else c11impl.case)(ctx, case)
 
 
 MANIFEST = {
